@@ -15,4 +15,13 @@ impl Env {
     pub fn invoke_contract<T: ToSV>(&mut self, contract: &Address, func: &Symbol, args: Vec<Val>) -> (r: T)
         ensures xcall_post(old(self)@, final(self)@, *contract, func.code@, vals_sv(args@), r.sv()),
     { unimplemented!() }
+    /// `try_invoke_contract`: a failing callee does not trap the caller (its effects are rolled back: `xcall_failed`)
+    #[verifier::external_body]
+    pub fn try_invoke_contract<T: ToSV, E>(&mut self, contract: &Address, func: &Symbol, args: Vec<Val>) -> (r: Result<Result<T, ConversionError>, Result<E, InvokeError>>)
+        ensures match r {
+            Ok(Ok(v)) => xcall_post(old(self)@, final(self)@, *contract, func.code@, vals_sv(args@), v.sv()),
+            Ok(Err(_)) => final(self)@.calls.len() > 0 && xcall_post(old(self)@, final(self)@, *contract, func.code@, vals_sv(args@), final(self)@.calls.last().ret),
+            Err(_) => xcall_failed(old(self)@, final(self)@, *contract, func.code@, vals_sv(args@)),
+        },
+    { unimplemented!() }
 }
